@@ -20,7 +20,7 @@ var c03Misc = []string{
 	"IN AL,DX", "OUT DX,AL", "IN AL,0x60", "OUT 0x21,AL", "IN EAX,DX", "OUT DX,EAX",
 	"DB 1,2,3", "DB \"ab\",0x0a,0", "DB 1,\"ab\"", "DB \"caf\u00e9\",0x0a", "DB 1,\"\u65e5\u672c!\"", "DW 1,0xaa55", "DD 1,0x12345678", "DW 1 ; DD 2", "RESB 18", "RESB 0",
 	"DB 1 ; ALIGNB 16", "DB 1,2,3 ; ALIGNB 4", "ALIGNB 16", "X EQU 5", "X EQU 5 ; MOV AX,X", "GLOBAL foo", "EXTERN bar",
-	"JMP 0x7c20", "JE 0x7c20", "CALL 0x7c80", "JMP 0x8000", "CALL 0x9000", "JMP DWORD 2*8:0x0000001b",
+	"JMP 0x7c20", "JE 0x7c20", "CALL 0x7c80", "JMP 0x8000", "CALL 0x9000", "JMP DWORD 2*8:0x0000001b", "CALL 0x200000", "JMP 0x200000", "JE 0x200000",
 	"MOV AX,lbl0", "MOV EAX,lbl0", "MOV WORD [0x1000],lbl0", "LGDT [lbl0]", "DW lbl0", "DD lbl0", "JMP lbl0", "JNZ lbl0", "CALL lbl0",
 	"MOV [0x0ff0],CH", "MOV BYTE [0x0ff0],8", "MOV ECX,[EBX+16]", "MOV [ESP+4],EAX", "IMUL ECX,4608", "SHL EAX,8", "LGDT [0x0ff0]",
 }
